@@ -16,6 +16,7 @@ package c27
 
 import (
 	"bytes"
+	"crypto/sha256"
 	"fmt"
 	"math/bits"
 	"strings"
@@ -190,7 +191,7 @@ func oracleSound(c *hx.Ctx, hs []common.Uint256, root common.Uint256, path []byt
 	if strings.HasPrefix(kind, "panic") || strings.HasPrefix(kind, "unknown") {
 		c.Fail("prove:"+strings.SplitN(kind, ":", 2)[0], "MerkleProve returns a value or one of its four errors", in, kind, nil)
 	}
-	if kind == "ok" && !member(merkle.HashLeaf(v), hs) {
+	if kind == "ok" && !member(refLeaf(v), hs) { // leaf hash per the specification, not per the code under test
 		c.Fail("sound:nonmember-accepted", "no path proves a value whose leaf hash is not in the list", in,
 			"accepted value "+hx.Hex(v), "rejected")
 	}
@@ -312,6 +313,9 @@ func mutate(c *hx.Ctx, path []byte, vlen int, other []byte, kinds map[string][]b
 		p := cp()
 		p[pl+c.Intn(vlen)] ^= byte(1 << uint(c.Intn(8)))
 		kinds["value-bitflip"] = p
+		p = cp()
+		p[pl+vlen-1] ^= byte(1 << uint(c.Intn(8)))
+		kinds["value-lastbyte"] = p
 	}
 	if k > 0 {
 		p := cp()
@@ -352,26 +356,45 @@ func mutate(c *hx.Ctx, path []byte, vlen int, other []byte, kinds map[string][]b
 	}
 }
 
-var mutationOrder = []string{"value-bitflip", "sibling-bitflip", "position-flip", "position-other", "drop-last-step",
+var mutationOrder = []string{"value-lastbyte", "value-bitflip", "sibling-bitflip", "position-flip", "position-other", "drop-last-step",
 	"drop-first-step", "dup-last-step", "truncate", "trailing-short", "trailing-max-ignored", "trailing-one-too-many",
 	"extra-step", "nonminimal-prefix", "other-member-value"}
 
 // ---- one list ----
 
-func listCase(c *hx.Ctx, n int, everyMember bool, nMutated int) {
+// boundaryLens: value lengths around the SHA-256 block structure of 0x00||value and around the
+// sizes a hashing fast path is likely to special-case.
+var boundaryLens = []int{0, 1, 31, 32, 33, 63, 64, 65, 66, 127, 128, 129, 255, 256}
+
+func valueLen(c *hx.Ctx) int {
+	switch c.Intn(16) {
+	case 0, 1, 2, 3:
+		return boundaryLens[c.Intn(len(boundaryLens))]
+	case 4:
+		return c.Intn(301)
+	}
+	return 1 + c.Intn(40)
+}
+
+// refLeaf / refChildren: the specification's hashes straight from crypto/sha256.
+func refLeaf(d []byte) common.Uint256 { return sha256.Sum256(append([]byte{0}, d...)) }
+func refChildren(l, r common.Uint256) common.Uint256 {
+	return sha256.Sum256(append(append([]byte{1}, l[:]...), r[:]...))
+}
+
+// listCase: fixedLen >= 0 gives every value that length (and then every member's path gets the
+// last-byte mutation).
+func listCase(c *hx.Ctx, n int, everyMember bool, nMutated int, fixedLen int) {
 	t := newTable()
 	values := make([][]byte, n)
 	for i := range values {
-		switch c.Intn(8) {
-		case 0:
-			values[i] = nil
-		case 1:
-			values[i] = c.Bytes(64) // the size of an inner-node preimage body
-		default:
-			values[i] = c.Bytes(1 + c.Intn(40))
+		if fixedLen >= 0 {
+			values[i] = c.Bytes(fixedLen)
+		} else {
+			values[i] = c.Bytes(valueLen(c))
 		}
 	}
-	dup := n >= 2 && c.Intn(6) == 0
+	dup := n >= 2 && fixedLen != 0 && c.Intn(6) == 0
 	if dup {
 		values[n-1] = values[c.Intn(n-1)] // duplicate value: getIndex finds the first one
 		c.Count("list:with-duplicate")
@@ -380,7 +403,7 @@ func listCase(c *hx.Ctx, n int, everyMember bool, nMutated int) {
 	secret := c.Bytes(1 + c.Intn(20))
 	attackIdx := -1
 	var attackB common.Uint256
-	if n >= 1 && !dup {
+	if n >= 1 && !dup && fixedLen < 0 {
 		attackIdx = c.Intn(n)
 		a := merkle.HashLeaf(secret)
 		copy(attackB[:], c.Bytes(32))
@@ -415,7 +438,13 @@ func listCase(c *hx.Ctx, n int, everyMember bool, nMutated int) {
 	}
 	// a non-member
 	{
-		nm := c.Bytes(1 + c.Intn(30))
+		nm := c.Bytes(valueLen(c))
+		if fixedLen >= 0 {
+			nm = c.Bytes(fixedLen)
+		}
+		for member(refLeaf(nm), hs) { // e.g. the empty value when a member is empty
+			nm = c.Bytes(len(nm) + 1)
+		}
 		_, coq, kind := leafPath(nm, hs)
 		c.Eval()
 		c.Count("leafpath[non-member]:" + kind)
@@ -431,6 +460,15 @@ func listCase(c *hx.Ctx, n int, everyMember bool, nMutated int) {
 		coq := oracleSound(c, hs, root, p, what)
 		items = append(items, "IProve "+cb(p)+" "+cb(root[:])+" "+coq)
 		c.Nontrivial(fmt.Sprintf("prove/%s/%d/%x", what, n, p))
+	}
+	if fixedLen > 0 {
+		for i := 0; i < n; i++ {
+			if paths[i] != nil {
+				p := append([]byte{}, paths[i]...)
+				p[valueLenPrefix(p)+fixedLen-1] ^= byte(1 << uint(c.Intn(8)))
+				addProve(fmt.Sprintf("value-lastbyte/len=%d", fixedLen), p, rfc)
+			}
+		}
 	}
 	// mutated paths of a few members
 	for m := 0; m < nMutated; m++ {
@@ -450,7 +488,7 @@ func listCase(c *hx.Ctx, n int, everyMember bool, nMutated int) {
 		// quick tier: a rotating subset of the mutation kinds per member keeps cases.v small
 		for q, name := range mutationOrder {
 			p, ok := kinds[name]
-			if !ok || (c.Quick() && (q+n+m)%3 != 0) {
+			if !ok || (c.Quick() && name != "value-lastbyte" && (q+n+m)%3 != 0) {
 				continue
 			}
 			addProve(name, p, rfc)
@@ -462,7 +500,13 @@ func listCase(c *hx.Ctx, n int, everyMember bool, nMutated int) {
 		}
 	}
 	// paths without steps: a bare value is accepted only if its leaf hash is the root itself
-	addProve("bare-nonmember-value", encodePath(c.Bytes(1+c.Intn(12)), nil), rfc)
+	{
+		bv := c.Bytes(valueLen(c))
+		for member(refLeaf(bv), hs) {
+			bv = c.Bytes(len(bv) + 1)
+		}
+		addProve("bare-nonmember-value", encodePath(bv, nil), rfc)
+	}
 	addProve("bare-member-value", encodePath(values[c.Intn(n)], nil), rfc)
 	if n%16 == 1 {
 		addProve("empty-path", nil, rfc)
@@ -521,6 +565,28 @@ func listCase(c *hx.Ctx, n int, everyMember bool, nMutated int) {
 	}
 }
 
+// lengthProbe: everything the property says, for one value length, against a list of true leaf hashes.
+func lengthProbe(c *hx.Ctx, L int) {
+	v, w := c.Bytes(L), c.Bytes(L+1)
+	c.Eval()
+	if got, want := merkle.HashLeaf(v), refLeaf(v); got != want {
+		c.Fail("hash:leaf-differs-from-spec", "HashLeaf(d) = sha256(0x00 || d)", replayIn{Kind: "hash", Data: hx.Hex(v)}, hx.Hex(got[:]), hx.Hex(want[:]))
+	}
+	hs := []common.Uint256{refLeaf(v), refLeaf(w)}
+	if c.Intn(2) == 0 {
+		hs[0], hs[1] = hs[1], hs[0]
+	}
+	root := refChildren(hs[0], hs[1])
+	p, _ := oracleComplete(c, hs, root, v)
+	c.Count("length-probe")
+	if p == nil || L == 0 {
+		return
+	}
+	q := append([]byte{}, p...)
+	q[valueLenPrefix(q)+L-1] ^= byte(1 << uint(c.Intn(8)))
+	oracleSound(c, hs, root, q, "length-probe:value-lastbyte")
+}
+
 func replay(c *hx.Ctx, in replayIn) {
 	hs := unhexes(in.Hashes)
 	t := newTable()
@@ -535,6 +601,12 @@ func replay(c *hx.Ctx, in replayIn) {
 		oracleRoots(c, t, hs)
 	case "depth":
 		oracleDepth(c, in.N)
+	case "children":
+		if len(hs) == 2 {
+			if got, want := merkle.HashChildren(hs[0], hs[1]), refChildren(hs[0], hs[1]); got != want {
+				c.Fail("hash:children-differs-from-spec", "HashChildren(l, r) = sha256(0x01 || l || r)", in, hx.Hex(got[:]), hx.Hex(want[:]))
+			}
+		}
 	case "hash":
 		d := hx.UnHex(in.Data)
 		if got, want := merkle.HashLeaf(d), t.leaf(d); got != want {
@@ -625,10 +697,30 @@ func Run(c *hx.Ctx) {
 		t.leaf([]byte{1, 2, 3})
 		c.Case(fmt.Sprintf("(CList %s nil %s nil (cons (IPath %s %s) nil))", t.coq(), cb(rfc[:]), cb([]byte{1, 2, 3}), coq), map[string]interface{}{"kind": "empty-list"})
 	}
+	// 4b. value lengths: HashLeaf against crypto/sha256 for every length 0..300, a two-element list
+	// of the TRUE leaf hashes (so a wrong HashLeaf cannot hide behind itself), the member's path and
+	// its last-byte mutation (implementation only); then one recorded three-element list per
+	// boundary length
+	for L := 0; L <= 300; L++ {
+		lengthProbe(c, L)
+	}
+	for i := 0; i < 64; i++ {
+		var l, r common.Uint256
+		copy(l[:], c.Bytes(32))
+		copy(r[:], c.Bytes(32))
+		c.Eval()
+		if got, want := merkle.HashChildren(l, r), refChildren(l, r); got != want {
+			c.Fail("hash:children-differs-from-spec", "HashChildren(l, r) = sha256(0x01 || l || r)",
+				replayIn{Kind: "children", Hashes: hexes([]common.Uint256{l, r})}, hx.Hex(got[:]), hx.Hex(want[:]))
+		}
+	}
+	for _, L := range boundaryLens {
+		listCase(c, 3, true, 0, L)
+	}
 	// 5. lists of 1..64 hashes, every member
 	maxN := 64
 	for n := 1; n <= maxN; n++ {
-		listCase(c, n, true, c.N(2, 6))
+		listCase(c, n, true, c.N(2, 6), -1)
 	}
 	// thorough: more lists, larger sizes (sampled members)
 	for i := 0; i < c.N(0, 120); i++ {
@@ -636,7 +728,7 @@ func Run(c *hx.Ctx) {
 		if i%10 == 0 {
 			n = 65 + c.Intn(200)
 		}
-		listCase(c, n, n <= 64, 4)
+		listCase(c, n, n <= 64, 4, -1)
 	}
 	// 6. MAX_SIZE boundary (implementation only: inputs of one megabyte are not turned into Coq terms)
 	if merkle.MAX_SIZE <= 1<<26 {
